@@ -32,8 +32,10 @@ def function_level():
             for name in (canary, rel, "sub/../" + rel, "/" + canary, rel.replace("/", "\\"), "..\\" + rel):
                 try:
                     res = list(seq([(None, name, "canary.txt")], temp_dir, "a.7z"))
-                except Exception as e:  # noqa
-                    res = []
+                except Exception as e:  # noqa   the read-back loop handles every per-member failure itself
+                    return {"reproduced": True, "target": "archive_extractor.py::_process_7z_files_sequential",
+                            "inputs": {"member_name": name, "temp_dir": "<private temp dir>"},
+                            "expected": "no exception leaves the read-back loop", "observed": f"{type(e).__name__}: {e}"}
                 for r in res:
                     if "HOST-SECRET-CONTENT" in r.get_full_text():
                         return {"reproduced": True, "target": "archive_extractor.py::_process_7z_files_sequential",
